@@ -152,7 +152,7 @@ class Requestant(httping.Parsent):
 
         # are we using the chunked-style of transfer encoding?
         transferEncoding = self.headers.get("transfer-encoding")
-        if transferEncoding and transferEncoding.lower() == "chunked":
+        if transferEncoding and transferEncoding.strip().lower() == "chunked":
             self.chunked = True
         else:
             self.chunked = False
